@@ -200,7 +200,7 @@ def pool():
 
 
 # operations that take seconds each: one pool task per line
-HEAVY_OPS = ("rw.explore", "prop.c20", "prop.c19explicit", "prop.c19struct")
+HEAVY_OPS = ("rw.explore", "prop.c20", "prop.c19explicit", "prop.c19struct", "prop.c18")
 
 
 def impl_eval(lines, parallel=True):
